@@ -225,3 +225,37 @@ Lemma gen_result_dtypes :
   gen_wmom_weights_f64 = true /\ gen_wmedian_weights_f64 = true /\ gen_sigma_clip_weights_f64 = true
   /\ gen_get_stats_data_f64 = true /\ gen_cov2cor_result_f64 = true /\ gen_cor2cov_result_f64 = true.
 Proof. repeat split; reflexivity. Qed.
+
+(* ------------------------------------------------------------------ rejections: test and error class *)
+Lemma gen_rejections :
+  (forall x w im ce sd, length w <> length x -> wmom (V1 x) (V1 w) im ce sd = Err gen_wmom_shape_error)
+  /\ (forall rows w niter nsig, gen_sc_rejects_ndim 2 = true /\ gen_sc_rejects_ndim 1 = false
+        /\ sigma_clip (M2 rows) w niter nsig = Err gen_sc_ndim_error)
+  /\ (forall x w niter nsig,
+        sigma_clip (V1 x) (Some (V1 w)) niter nsig =
+        if gen_sc_rejects_size (Z.of_nat (length w)) (Z.of_nat (length x)) then Err gen_sc_size_error
+        else sigma_clip (V1 x) (Some (V1 w)) niter nsig)
+  /\ (forall cov i, rect cov (length cov) = true -> (i < length cov)%nat -> gen_cov_diag_bad (mget cov i i) = true ->
+        cov2cor cov = Err gen_cov_diag_error).
+Proof.
+  split; [|split; [|split]].
+  - intros x w im ce sd H. unfold wmom; simpl.
+    destruct (Nat.eqb (length w) (length x)) eqn:E; [apply Nat.eqb_eq in E; contradiction|reflexivity].
+  - intros. split; [reflexivity|]. split; reflexivity.
+  - intros x w niter nsig. unfold gen_sc_rejects_size. rewrite <- nat_eqb_Z.
+    destruct (Nat.eqb (length w) (length x)) eqn:E; [reflexivity|].
+    cbn [negb]. unfold sigma_clip. cbn [atleast_1d]. rewrite E. reflexivity.
+  - intros cov i R Hi H. apply (cov2cor_rejects cov i R Hi). apply Qle_bool_iff. exact H.
+Qed.
+
+(* ------------------------------------------------------------------ who returns what in which position *)
+(* wmom returns (mean, error[, deviation]); _get_sigma_clip_stats unpacks wmom and returns in that order;
+   sigma_clip appends mean, deviation, error, indices; get_stats unpacks sigma_clip as (mean, deviation, error) and wmom
+   as (mean, error, deviation): every unpacking agrees with the order of the producer *)
+Lemma gen_result_orders :
+  gen_wmom_return_sdev = [SMean; SErr; SStd] /\ gen_wmom_return = [SMean; SErr]
+  /\ gen_scstats_unpack = gen_wmom_return_sdev /\ gen_scstats_return = [SMean; SErr; SStd]
+  /\ gen_sc_return_full = [SMean; SStd; SErr; SIdx]
+  /\ gen_gs_clip_unpack = firstn 3 gen_sc_return_full
+  /\ gen_gs_wmom_unpack = gen_wmom_return_sdev.
+Proof. repeat split; reflexivity. Qed.
